@@ -309,6 +309,7 @@ package raft
 //@   requires [next-nonnil] next != nil
 //@   requires [pre-nonnil] r.configuration != nil && r.followers != nil && r.operationManager != nil && r.operationManager.leaderLease != nil && r.logger != nil && r.operationManager.pendingReplicated != nil && r.operationManager.pendingReadOnly != nil
 //@   requires [pre-I11c] forall o *Operation :: o in r.operationManager.pendingReadOnly ==> o != nil
+//@   requires [pre-L] 0 <= Llast
 //@   requires [pre-I6b] forall fid string :: fid in r.followers ==> r.followers[fid] != nil
 //@   ensures [config] r.configuration == next
 //@   ensures [I6b] forall fid string :: fid in r.followers ==> r.followers[fid] != nil
@@ -507,6 +508,7 @@ package raft
 //@   loop range r.pendingReadOnly invariant [nonnil] forall o *Operation :: o in r.pendingReadOnly ==> o != nil
 
 //@ func Raft.readOnlyLoop
+//@   at call r.operationManager.appliableReadOnlyOperations assert [batch-guard] r.state == Leader && committedThisTermSpec(r)
 //@   release s2 [serve] r.state == Leader && operation != nil && operation.readIndex <= r.lastApplied && (operation.OperationType == LinearizableReadOnly ==> operation.quorumVerified) && (operation.OperationType == LeaseBasedReadOnly ==> now < r.operationManager.leaderLease.expiration)
 //@   loop range appliableOperations invariant [batch] forall o *Operation :: o in appliableOperations ==> o != nil && o.readIndex <= r.lastApplied && (o.OperationType == LinearizableReadOnly ==> o.quorumVerified) && (o.OperationType == LinearizableReadOnly || o.OperationType == LeaseBasedReadOnly)
 //@   loop range appliableOperations invariant [leader] r.state == Leader
